@@ -52,9 +52,13 @@ def _shipped(rel):
 
 
 def _js(x, n=300):
+    """Text of a value for messages: JSON when JSON spells it faithfully, repr otherwise (tuples, non-string keys,
+    numpy scalars, dates ... must not be shown as their JSON look-alikes)."""
     try:
-        s = json.dumps(x, sort_keys=True, default=repr)
-    except (TypeError, ValueError):          # non-string / mixed keys
+        s = json.dumps(x, sort_keys=True)
+        if not R.same(json.loads(s), x):
+            s = repr(x)
+    except (TypeError, ValueError):
         s = repr(x)
     return s if len(s) <= n else s[:n] + "…"
 
